@@ -484,6 +484,11 @@ class FileCache:
                     # Defaults to True if no validation directive is given
                     valid_entry = True
 
+            if valid_entry:
+                # A cache hit counts as use: touch the file so that it is the
+                # last to be evicted (and never evicted by its own request).
+                self._get_from_cache(hashkey)
+
             if not valid_entry:
                 # If not a valid entry (either missing or invalid)
                 #
